@@ -1514,6 +1514,20 @@ def _moveaxis(I, args, kw):
     return permute_axes(a, order)
 
 
+@_np('expand_dims')
+def _expand_dims(I, args, kw):
+    a = _as_arr(I, args[0])
+    ax = kw.get('axis', args[1] if len(args) > 1 else None)
+    if not isinstance(ax, int):
+        raise Unsupported('expand_dims with several / symbolic axes')
+    n = a.ndim + 1
+    ax = ax % n if -n <= ax < n else None
+    if ax is None:
+        raise PyExc('AxisError')
+    idx = tuple([slice(None)] * ax + [None] + [slice(None)] * (a.ndim - ax))
+    return basic_index(I, a, idx)
+
+
 @_np('atleast_1d')
 def _atleast_1d(I, args, kw):
     x = args[0]
